@@ -4,6 +4,7 @@ import (
 	"bytes"
 	"fmt"
 	"iter"
+	"sync/atomic"
 	"testing"
 
 	"github.com/jwhited/corebgp"
@@ -33,20 +34,35 @@ func (c c16Case) bytes() []byte {
 
 type c16Rec struct{ evs []wire.PartEvent }
 
-var c16Decoder = corebgp.NewUpdateDecoder[*c16Rec](
-	func(r *c16Rec, b []byte) error {
-		r.evs = append(r.evs, wire.PartEvent{Kind: "wr", Val: append([]byte{}, b...)})
-		return nil
-	},
-	func(r *c16Rec, code uint8, flags corebgp.PathAttrFlags, b []byte) error {
-		r.evs = append(r.evs, wire.PartEvent{Kind: "attr", Type: code, Flags: uint8(flags), Val: append([]byte{}, b...)})
-		return nil
-	},
-	func(r *c16Rec, b []byte) error {
-		r.evs = append(r.evs, wire.PartEvent{Kind: "nlri", Val: append([]byte{}, b...)})
-		return nil
-	},
-)
+// c16Fresh: every evaluation builds a decoder of its own (concurrent sub-check); otherwise
+// one decoder serves all evaluations of the process, as a plugin would use it
+var c16Fresh atomic.Bool
+
+func c16Dec() *corebgp.UpdateDecoder[*c16Rec] {
+	if c16Fresh.Load() {
+		return newC16Decoder()
+	}
+	return c16Decoder
+}
+
+var c16Decoder = newC16Decoder()
+
+func newC16Decoder() *corebgp.UpdateDecoder[*c16Rec] {
+	return corebgp.NewUpdateDecoder[*c16Rec](
+		func(r *c16Rec, b []byte) error {
+			r.evs = append(r.evs, wire.PartEvent{Kind: "wr", Val: append([]byte{}, b...)})
+			return nil
+		},
+		func(r *c16Rec, code uint8, flags corebgp.PathAttrFlags, b []byte) error {
+			r.evs = append(r.evs, wire.PartEvent{Kind: "attr", Type: code, Flags: uint8(flags), Val: append([]byte{}, b...)})
+			return nil
+		},
+		func(r *c16Rec, b []byte) error {
+			r.evs = append(r.evs, wire.PartEvent{Kind: "nlri", Val: append([]byte{}, b...)})
+			return nil
+		},
+	)
+}
 
 // dropEmptySections removes withdrawn/NLRI callbacks with no bytes: whether
 // an empty section is announced to its callback is not part of the statement.
@@ -108,7 +124,7 @@ func c16Prop(c c16Case) hx.Verdict {
 	}
 	rec := &c16Rec{}
 	in := append([]byte(nil), b...)
-	err := c16Decoder.Decode(rec, in)
+	err := c16Dec().Decode(rec, in)
 	_ = err // error classes are C17's business
 	if ref.Abort != "" {
 		if len(rec.evs) != 0 {
@@ -233,10 +249,15 @@ func TestC16(t *testing.T) {
 		}
 	}), c16Prop)
 
-	hx.Rapid(r, t, "grammar", r.N(60000, 600000), func(rt *rapid.T) c16Case {
+	genOne := func(rt *rapid.T) c16Case {
 		b, _ := genUpdateBody(rt)
 		return c16Case{B: b}
-	}, c16Prop)
+	}
+	hx.Rapid(r, t, "grammar", r.N(60000, 600000), genOne, c16Prop)
+
+	c16Fresh.Store(true)
+	hx.Rapid(r, t, "concurrent_decoders", r.N(400, 4000), genConc(genOne, 2, 6, 40), concProp(c16Prop))
+	c16Fresh.Store(false)
 }
 
 func FuzzC16Partition(f *testing.F) {
